@@ -16,7 +16,8 @@ class ConnProp(Prop):
     thorough_search_s = 300
     exhaustive_tiers = ("thorough",)
     quick_n = 50          # x 8 shards = 400 schedules
-    thorough_n = 1250     # x 16 shards = 20 000 schedules
+    thorough_shards = 64  # many small case files: coqc's time to read a case file grows faster than linearly
+    thorough_n = 313      # x 64 shards = 20 032 schedules
     exhaustive_len = 6
     trusted_base = [
         "Coq 8.16.1 kernel + vm_compute (no native_compute)",
@@ -42,7 +43,7 @@ class ConnProp(Prop):
         if tier == "quick":
             return [["--seed", str(seed), "--n", str(self.quick_n)] for _ in range(8)]
         return [["--seed", str(seed), "--n", str(self.thorough_n), "--mode", "full%d" % self.exhaustive_len]
-                for _ in range(NCPU)]
+                for _ in range(self.thorough_shards)]
 
     def search_shards(self, tier, seed, round_no):
         return [["--seed", str(seed + 7919 * (round_no + 1) + k), "--n", "40"] for k in range(NCPU)]
@@ -74,7 +75,8 @@ class ConnProp(Prop):
             self.id, "; ".join(parts), len(i.get("steps") or []), i.get("nsrc"), i.get("gated"))
 
     def distribution(self, cases):
-        d = {"gated": 0, "multi_source": 0, "steps": 0, "restarts": 0, "s1_shape": 0, "misbehaving_engine": 0}
+        d = {"gated": 0, "multi_source": 0, "steps": 0, "restarts": 0, "s1_shape": 0, "misbehaving_engine": 0,
+             "fast_teardowns_in_fault_free_runs": 0}
         ops = {}
         evs = {}
         for c in cases:
@@ -90,6 +92,11 @@ class ConnProp(Prop):
                 if e.get("k") == "commit" and e.get("ok") and any(not w.get("ok") for w in e.get("ws") or []):
                     d["s1_shape"] += 1
             d["restarts"] += len((c.get("observed") or {}).get("restarts") or [])
+            faulty = any(e.get("k") in ("txfail", "sendfail") or
+                         (e.get("k") == "commit" and (not e.get("ok") or any(not w.get("ok") for w in e.get("ws") or [])))
+                         for e in _log(c))
+            if not faulty:
+                d["fast_teardowns_in_fault_free_runs"] += sum(1 for e in _log(c) if e.get("k") == "tdend" and e.get("ok"))
         d["ops"] = ops
         d["events"] = evs
         return d
